@@ -2,6 +2,7 @@ package rules
 
 import (
 	"go/token"
+	"go/types"
 	"strings"
 
 	"golang.org/x/tools/go/ssa"
@@ -325,4 +326,43 @@ func c41(c *engine.Ctx) {
 		}
 	}
 	c.Floor("C41.R4", 4, n4)
+	// R5: the retry in Invoke recognises the rejection with errors.As on a
+	// *badMessageError; errors.As matches the dynamic type exactly, so every
+	// badMessageError that is turned into an error value in the package must
+	// have that very type (a value where a pointer is expected silently
+	// disables the retry and the salt update).
+	want := map[string]bool{}
+	for _, f := range allFunctions(c, c.SSA["mtproto"]) {
+		for _, g := range engine.WithAnon(f) {
+			for _, call := range engine.Calls(g) {
+				if !strings.HasSuffix(engine.CalleeID(call.Common()), "errors.As") || len(call.Common().Args) != 2 {
+					continue
+				}
+				tgt := call.Common().Args[1]
+				if mi, ok := tgt.(*ssa.MakeInterface); ok {
+					tgt = mi.X
+				}
+				if p, ok := tgt.Type().(*types.Pointer); ok && strings.Contains(p.Elem().String(), "badMessageError") {
+					want[p.Elem().String()] = true
+				}
+			}
+		}
+	}
+	n5 := 0
+	for _, f := range allFunctions(c, c.SSA["mtproto"]) {
+		for _, g := range engine.WithAnon(f) {
+			engine.Instrs(g, func(i ssa.Instruction) {
+				mi, ok := i.(*ssa.MakeInterface)
+				if !ok || !strings.Contains(mi.X.Type().String(), "badMessageError") {
+					return
+				}
+				if it, isI := mi.Type().Underlying().(*types.Interface); !isI || it.NumMethods() == 0 {
+					return // formatting arguments (interface{}) are not error values
+				}
+				n5++
+				c.Check(len(want) == 1 && want[mi.X.Type().String()], "C41.R5", engine.FuncID(g)+"/bad-message-error-type#"+ordinal(g, mi), mi.Pos(), "an error of type %s is produced, but the retry logic extracts %v with errors.As", mi.X.Type().String(), keys(want))
+			})
+		}
+	}
+	c.Floor("C41.R5", 2, n5)
 }
